@@ -252,6 +252,8 @@ func (x *Exec) externCall(f *frame, in ssa.Instruction, callee *ssa.Function, c 
 	case "(*sync.Mutex).Unlock", "(*sync.RWMutex).Unlock", "(*sync.RWMutex).RUnlock":
 		x.lockOp(f, in, c, args, false)
 		return Val{}, true
+	case "math/rand/v2.Float64", "math/rand.Float64":
+		return x.randFloat64(st), true
 	case "time.Now":
 		x.assumed["extern time.Now: arbitrary time value"] = true
 		return Val{T: x.havocValue(st, callee.Signature.Results().At(0).Type(), "now")}, true
